@@ -1,25 +1,28 @@
 #!/usr/bin/env python3
-"""usage: mk_matrix_md.py <matrix log>  -> markdown table (stdout)"""
+"""usage: mk_matrix_md.py <matrix log> [<matrix log> ...]  -> markdown table (stdout); later files override earlier ones per id"""
 import sys,json,os,re
-rows=[]
-for l in open(sys.argv[1]):
-    l=l.strip()
-    m=re.match(r'^(M\d+-\d) \[(C\d+)\] (.*)$',l)
-    if not m: continue
-    mid,target,rest=m.groups()
-    cells=dict(c.split(':') for c in rest.split())
+rows={}
+for fn in sys.argv[1:]:
+    for l in open(fn):
+        l=l.strip()
+        m=re.match(r'^(M\d+-\d) \[(C\d+)\] (.*)$',l)
+        if not m: continue
+        mid,target,rest=m.groups()
+        cells=dict(c.split(':') for c in rest.split())
+        rows[mid]=(target,cells)
+print("| change | breaks | caught by (VIOLATION; bold = the check of the targeted property) | inconclusive | what it needs to manifest |")
+print("|---|---|---|---|---|")
+n=hit=own=0
+missed=[]
+for mid in sorted(rows, key=lambda x:(int(x[1:].split('-')[0]),x)):
+    target,cells=rows[mid]
     caught=[p for p,v in cells.items() if v=='VIOLATION']
     inc=[p for p,v in cells.items() if v=='inconclusive']
-    quiet=[p for p,v in cells.items() if v=='-']
     meta=json.load(open(f'/verif/seeded/{mid}/meta.json'))
-    need=meta['needs_to_manifest']
-    if len(need)>150: need=need[:147]+'...'
-    rows.append((mid,target,caught,inc,quiet,need))
-print("| change | target | caught by (VIOLATION) | also run, quiet | what it needs to manifest |")
-print("|---|---|---|---|---|")
-for mid,target,caught,inc,quiet,need in rows:
+    need=meta['needs_to_manifest'].replace('|','/')
+    if len(need)>140: need=need[:137]+'...'
     c=', '.join(('**'+p+'**' if p==target else p) for p in caught) or '—'
-    if inc: c+=' (inconclusive: '+', '.join(inc)+')'
-    print(f"| {mid} | {target} | {c} | {', '.join(quiet)} | {need} |")
-n=len(rows); hit=sum(1 for r in rows if r[2]); own=sum(1 for r in rows if r[1] in r[2])
-print(f"\n{n} changes, {hit} caught by at least one check, {own} caught by the check of the targeted property itself.")
+    print(f"| {mid} | {target} | {c} | {', '.join(inc)} | {need} |")
+    n+=1; hit+= 1 if caught else 0; own+= 1 if target in caught else 0
+    if not caught: missed.append(mid)
+print(f"\n{n} changes; {hit} caught by at least one check (VIOLATION), {own} by the check of the property the author named; not caught: {', '.join(missed) or 'none'}.")
